@@ -2521,6 +2521,20 @@ func (s *swamp) sendClosedEvent() {
 // !!!!!!!! IMPORTANT: YOU NEED TO RELEASE THE TRANSACTION BEFORE CALLING THIS FUNCTION, BECAUSE THIS FUNCTION
 // WAITS FOR ALL TRANSACTIONS TO BE RELEASED
 func (s *swamp) Destroy() {
+	s.destroy(false)
+}
+
+// destroyIfStillEmpty is the automatic destruction of a swamp whose last record
+// has just been removed. Between the moment the caller saw the swamp empty and the
+// moment every other in-flight request has finished (the vigil drain in destroy), one
+// of those requests may have stored a record - and has told its client so. In that
+// case nothing is deleted: the swamp is flushed and closed like an idle one, and the
+// next request loads it again.
+func (s *swamp) destroyIfStillEmpty() {
+	s.destroy(true)
+}
+
+func (s *swamp) destroy(onlyIfStillEmpty bool) {
 
 	swampName := s.name.Get()
 	slog.Info("Destroy: starting", "swamp", swampName)
@@ -2571,6 +2585,12 @@ func (s *swamp) Destroy() {
 	s.Vigil.WaitForActiveVigilsClosed()
 
 	slog.Debug("Destroy: vigils closed", "swamp", swampName)
+
+	if onlyIfStillEmpty && s.beaconKey.Count() > 0 {
+		slog.Info("Destroy: the swamp is not empty any more, closing it instead", "swamp", swampName)
+		s.finishClose()
+		return
+	}
 
 	s.mu.Lock()
 	defer s.mu.Unlock()
@@ -2785,7 +2805,7 @@ func (s *swamp) DeleteTreasure(key string, shadowDelete bool) error {
 	if s.beaconKey.Count() == 0 {
 		// feloldjuk a vigiliát, mert nincs több treasure a swampban és a Destroy megkövetelei a Vigil feloldását
 		s.CeaseVigil()
-		s.Destroy()
+		s.destroyIfStillEmpty()
 		return nil
 	}
 
@@ -2840,7 +2860,7 @@ func (s *swamp) CloneAndDeleteExpiredTreasures(howMany int32) ([]treasure.Treasu
 		slog.Info("CloneAndDeleteExpiredTreasures: auto-destroying empty swamp",
 			"swamp", s.name.Get())
 		s.CeaseVigil()
-		s.Destroy()
+		s.destroyIfStillEmpty()
 	}
 
 	// return with the shifted treasures
@@ -2874,7 +2894,7 @@ func (s *swamp) CloneAndDeleteMatchingTreasures(beaconType BeaconType, order Bea
 	// the vigil of every other request, including one queued on those locks.
 	if s.beaconKey.Count() == 0 {
 		s.CeaseVigil()
-		s.Destroy()
+		s.destroyIfStillEmpty()
 	}
 
 	return shiftedTreasures, capReached, nil
@@ -2993,7 +3013,7 @@ func (s *swamp) CloneAndDeleteTreasuresByKeys(keys []string) ([]treasure.Treasur
 	// destroy the swamp if there is no treasure in it
 	if s.beaconKey.Count() == 0 {
 		s.CeaseVigil()
-		s.Destroy()
+		s.destroyIfStillEmpty()
 	}
 
 	return result, nil
